@@ -63,8 +63,9 @@ CHECKS["C01"] = dict(
     level_note=_HIST_NOTE,
     stages=[dict(harness="hist", variant="plain", args=["--mode", "roundtrip"], require=["blocks_validated"]),
             dict(harness="val", variant="asan", args=["--mode", "values"], prefix="values_"),
-            dict(harness="val", variant="asan", args=["--mode", "align"], prefix="align_")],
-    rule="stateless DFS, every history of length 0..D per configuration; value product: every field x every boundary value alone / inside the full record / removed from it (pairs of fields thinned); alignment sweep: a padding string of every length 0..2100 (+ 4095..70000) shifts a record stream with 64-bit values and a preamble with text members across every position of the encoder buffer; two long traces (3000 records in one block, 200 blocks of 3); non-trivial = at least one operation; distinct by construction",
+            dict(harness="val", variant="asan", args=["--mode", "align"], prefix="align_"),
+            dict(harness="ser", variant="asan", args=["--mode", "roundtrip", "--structs", "block"], prefix="serrt_")],
+    rule="stateless DFS, every history of length 0..D per configuration; structure round trip (E-SER): each of the 15 block-level structures x member subsets x {small, widest} values: write(x)=B, a fresh object and an object that held the fully populated variant before both read B and must serialise to B again; value product: every field x every boundary value alone / inside the full record / removed from it (pairs of fields thinned); alignment sweep: a padding string of every length 0..2100 (+ 4095..70000) shifts a record stream with 64-bit values and a preamble with text members across every position of the encoder buffer; two long traces (3000 records in one block, 200 blocks of 3); non-trivial = at least one operation; distinct by construction",
     bound_quick="length <= 3 over 16 ops, 19 configurations", bound_thorough="length <= 4, 64 configurations",
     assumptions=["statistics passed together with an AEC/MM that other_data_hints reject are ignored (model follows the code; the property text is silent)"],
 )
@@ -166,8 +167,9 @@ CHECKS["C09"] = dict(
     level_text="Every enumerated FilePreamble (all 256x256 version pairs x private version {absent,0,255}; every subset of the 7 optional storage members x collection parameters {absent, present-empty, subsets}; integers on width boundaries; opcode/RR-type lists of length 0/1/3/300 with unassigned codes and duplicates; empty/ASCII/multi-byte UTF-8/300-byte texts; 1..8 parameter sets through all four construction paths) is written and compared member for member (absent != empty != default) with CdnsReader::m_file_preamble and with the independent interpretation of the bytes.",
     level_note="Trusted: ref/ reader; own comparator via canonical dumps. The two-argument FilePreamble constructor ignoring its private_version argument is outside the property (object compared as it stands before writing).",
     stages=[dict(harness="val", variant="asan", args=["--mode", "preamble"]),
-            dict(harness="val", variant="asan", args=["--mode", "align"], prefix="align_")],
-    rule="enumerated preamble specifications, each exported with one record and read back twice; all distinct and non-trivial",
+            dict(harness="val", variant="asan", args=["--mode", "align"], prefix="align_"),
+            dict(harness="ser", variant="asan", args=["--mode", "roundtrip", "--structs", "preamble"], prefix="serrt_")],
+    rule="enumerated preamble specifications, each exported with one record and read back twice; all distinct and non-trivial; structure round trip (E-SER): StorageHints, StorageParameters, CollectionParameters, BlockParameters, FilePreamble, Timestamp x member subsets x {small, widest} values: a fresh object and an object that held the fully populated variant before read write(x) and must serialise to the same bytes",
     bound_quick="versions: major 0..255 x minor step 5 (+ all minors for major 1); storage subsets 2^7 x collection {absent, empty, full, single members, all-but-one}", bound_thorough="versions exhaustive 256x256x3; 2^7 x (2^10+1) member subsets",
     assumptions=["vector members of CollectionParameters cannot distinguish empty from absent in the API; both are treated as absent"],
 )
